@@ -39,8 +39,8 @@ example : datedHintSafe (.fixed (some 2024) 2 29) ⟨.next 1, 900⟩ (.fixed (so
 longer than a year, offsets that differ by a year (`Jan 01 -7 days-Dec 25`, `Jan 01 -366 days-Jan 01 -365 days`,
 `Jan 01 -364 days-Dec 31 +370 days`, `Jan 01 +400 days-Jan 10 +770 days`, `Dec 28 +35 days-Dec 28 +405 days`,
 `Feb 29 -1000 days-Feb 29 +10 days`, `Jan 01 -Mo -100000 days-Dec 31 +Su +100000 days`, and the bounds of the
-class: `Jan 01 -Mo -30000000 days-Dec 31 +Su +30000000 days`, `Feb 29 -30000000 days-Feb 29 +30000000 days`,
-`easter -300000 days-Dec 31 +300000 days`) -/
+class: `Jan 01 -Mo -92000000 days-Dec 31 +Su +92000000 days`, `Feb 29 -1000000000000 days-Feb 29 +92000000 days`
+(single day: any start offset), `easter -300000 days-Dec 31 +300000 days`) -/
 example : datedHintSafe (.fixed none 1 1) ⟨.none, -7⟩ (.fixed none 12 25) off0 = true := by decide
 example : datedHintSafe (.fixed none 1 1) ⟨.none, -366⟩ (.fixed none 1 1) ⟨.none, -365⟩ = true := by decide
 example : datedHintSafe (.fixed none 1 1) ⟨.none, -364⟩ (.fixed none 12 31) ⟨.none, 370⟩ = true := by decide
@@ -49,11 +49,14 @@ example : datedHintSafe (.fixed none 12 28) ⟨.none, 35⟩ (.fixed none 12 28) 
 example : datedHintSafe (.fixed none 2 29) ⟨.none, -1000⟩ (.fixed none 2 29) ⟨.none, 10⟩ = true := by decide
 example : datedHintSafe (.fixed none 1 1) ⟨.prev 0, -100000⟩ (.fixed none 12 31) ⟨.next 6, 100000⟩ = true := by decide
 example : datedHintSafe (.fixed none 1 1) ⟨.prev 0, -30000000⟩ (.fixed none 12 31) ⟨.next 6, 30000000⟩ = true := by decide
-example : datedHintSafe (.fixed none 2 29) ⟨.none, -30000000⟩ (.fixed none 2 29) ⟨.none, 30000000⟩ = true := by decide
+example : datedHintSafe (.fixed none 1 1) ⟨.prev 0, -92000000⟩ (.fixed none 12 31) ⟨.next 6, 92000000⟩ = true := by decide
+example : datedHintSafe (.fixed none 1 1) ⟨.none, 92000000⟩ (.fixed none 1 10) ⟨.none, -92000000⟩ = true := by decide
+example : datedHintSafe (.fixed none 2 29) ⟨.none, -1000000000000⟩ (.fixed none 2 29) ⟨.none, 92000000⟩ = true := by decide
 example : datedHintSafe (.easter none) ⟨.none, -300000⟩ (.fixed none 12 31) ⟨.none, 300000⟩ = true := by decide
-/-- outside: day offsets beyond ±30 000 000 days on a yearless start (±300 000 days next to Easter); a yearless
+/-- outside: day offsets beyond ±92 000 000 days on a yearless start (±300 000 days next to Easter); a yearless
 start with an end that carries a year (no documented meaning) -/
-example : datedHintSafe (.fixed none 1 1) ⟨.none, 30000001⟩ (.fixed none 1 10) off0 = false := by decide
+example : datedHintSafe (.fixed none 1 1) ⟨.none, 92000001⟩ (.fixed none 1 10) off0 = false := by decide
+example : datedHintSafe (.fixed none 2 29) off0 (.fixed none 2 29) ⟨.none, 92000001⟩ = false := by decide
 example : datedHintSafe (.easter none) off0 (.fixed none 1 10) ⟨.none, -300001⟩ = false := by decide
 example : datedHintSafe (.fixed none 10 15) off0 (.easter (some 2021)) off0 = false := by decide
 
